@@ -194,6 +194,9 @@ def _ops():
         op("unmarshal(str,15:00+03)", "equal_instant", lambda: dt_p3, lambda x: typelib.unmarshal(str, x)),
         op("marshal('a',t=Union[int,str])", "union_order", lambda: "a", lambda x: typelib.marshal(x, t=U1)),
         op("marshal('a',t=Union[str,int])", "union_order", lambda: "a", lambda x: typelib.marshal(x, t=U2)),
+        # values more than one member accepts: the answer must not depend on which member matched in earlier calls
+        op("marshal(5,t=Union[int,str])", "union_order", lambda: 5, lambda x: typelib.marshal(x, t=U1)),
+        op("marshal('7',t=Union[int,str])", "union_order", lambda: "7", lambda x: typelib.marshal(x, t=U1)),
         op("unmarshal(Union[int,str],1.5)", "union_order", lambda: 1.5, lambda x: typelib.unmarshal(U1, x)),
         op("unmarshal(dict[str,int],{'a':1})", "numeric_alias", lambda: {"a": 1}, lambda x: typelib.unmarshal(dict[str, int], x)),
         op("unmarshal(dict[str,int],{'a':1.0})", "numeric_alias", lambda: {"a": 1.0}, lambda x: typelib.unmarshal(dict[str, int], x)),
